@@ -68,6 +68,17 @@ func verifStartFaultyBackend() (addr string, stop func()) {
 						return
 					case strings.HasPrefix(p, "/huge-header"):
 						fmt.Fprintf(c, "HTTP/1.1 200 OK\r\nX-Huge: %s\r\nContent-Length: 0\r\n\r\n", strings.Repeat("h", 2<<20))
+					case strings.HasPrefix(p, "/ws-idle"):
+						// a websocket backend that accepts and then only reads
+						key := req.Header.Get("Sec-WebSocket-Key")
+						h := sha1.Sum([]byte(key + "258EAFA5-E914-47DA-95CA-C5AB0DC85B11"))
+						fmt.Fprintf(c, "HTTP/1.1 101 Switching Protocols\r\nUpgrade: websocket\r\nConnection: Upgrade\r\nSec-WebSocket-Accept: %s\r\n\r\n", base64.StdEncoding.EncodeToString(h[:]))
+						buf := make([]byte, 4096)
+						for {
+							if _, err := br.Read(buf); err != nil {
+								return
+							}
+						}
 					case strings.HasPrefix(p, "/ws-send-close"):
 						// a websocket backend that sends one message and hangs up at once
 						key := req.Header.Get("Sec-WebSocket-Key")
@@ -117,14 +128,15 @@ func TestVerifC07(t *testing.T) {
 	for _, k := range []string{"500-x3", "neterr-x3", "500-then-ok"} {
 		faults = append(faults, fault{"upload", k})
 	}
-	for _, k := range []string{"open-garbage", "open-unreachable", "open-unreachable-then-use", "open-refused-then-use", "open-ws-send-close-then-use", "data-garbage", "data-unknown", "poll-unknown", "close-unknown", "poll-garbage"} {
+	for _, k := range []string{"open-garbage", "open-unreachable", "open-unreachable-then-use", "open-refused-then-use", "open-ws-send-close-then-use", "open-ws-idle-then-data-shapes", "data-garbage", "data-unknown", "poll-unknown", "close-unknown", "poll-garbage"} {
 		faults = append(faults, fault{"shim", k})
 	}
-	configs := []string{"plain", "shim+sessions"}
+	configs := []string{"plain", "shim+sessions", "shim+sessions+injection"}
 	for _, config := range configs {
 		sessionLRU = nil
 		sp := ""
-		if config == "shim+sessions" {
+		*enableWebsocketsInjection = config == "shim+sessions+injection"
+		if config == "shim+sessions" || config == "shim+sessions+injection" {
 			sessionLRU = sessions.NewCache("verif-session", time.Hour, 100, true)
 			sp = "verifshim"
 		}
@@ -199,6 +211,8 @@ func TestVerifC07(t *testing.T) {
 				case "open-ws-send-close-then-use":
 					// the open succeeds; the backend sends one message and closes before anything is polled
 					raw = mkReq("POST", "/verifshim/open", "ws://x/ws-send-close")
+				case "open-ws-idle-then-data-shapes":
+					raw = mkReq("POST", "/verifshim/open", "ws://x/ws-idle")
 				case "open-refused-then-use":
 					// the healthy backend answers the websocket handshake with a plain HTTP response
 					raw = mkReq("POST", "/verifshim/open", "ws://x/ok/not-a-websocket")
@@ -265,11 +279,23 @@ func TestVerifC07(t *testing.T) {
 			}
 			// a failed open followed by calls naming the session IDs it may have been given
 			followup := []int{}
-			if strings.HasSuffix(f.Kind, "-then-use") {
+			if strings.HasSuffix(f.Kind, "-then-use") || strings.HasSuffix(f.Kind, "-then-data-shapes") {
 				time.Sleep(200 * time.Millisecond)
 				fpG := newVerifFakeProxy()
 				var gids []string
-				for n := 1; n <= 40; n++ {
+				if strings.HasSuffix(f.Kind, "-then-data-shapes") {
+					// data posts with every shape of message on a live session (with header injection on: JSON messages are rewritten)
+					shapes := []string{`"plain"`, `"{\"resource\":\"oops\"}"`, `"{\"resource\":{\"headers\":[]}}"`, `"{\"resource\":[1]}"`, `"{\"resource\":{\"headers\":null}}"`, `"{\"resource\":null}"`,
+						`"{\"resource\":{\"headers\":{\"a\":null}}}"`, `"[1,2]"`, `"null"`, `"{"`, `[42]`, `[null]`, `[{"a":1}]`, `[]`, `42`, `null`, `{"x":1}`, `["aGk="]`}
+					for n := 1; n <= 60; n++ {
+						for si, shape := range shapes {
+							gid := fmt.Sprintf("%s-shape-%d-%d", fid, si, n)
+							fpG.addRequest(gid, "u@example.com", mkReq("POST", "/verifshim/data", fmt.Sprintf(`[{"id":"%d","msg":%s}]`, n, shape)), nil)
+							gids = append(gids, gid)
+						}
+					}
+				}
+				for n := 1; n <= 40 && strings.HasSuffix(f.Kind, "-then-use"); n++ {
 					for _, ep := range []string{"poll", "data", "close"} {
 						gid := fmt.Sprintf("%s-use-%s-%d", fid, ep, n)
 						body := fmt.Sprintf(`{"id":"%d"}`, n)
@@ -327,5 +353,6 @@ func TestVerifC07(t *testing.T) {
 	}
 	sessionLRU = nil
 	*forwardUserID, *stripCredentials = false, false
+	*enableWebsocketsInjection = false
 	out.emit(map[string]interface{}{"kind": "survived"})
 }
